@@ -263,7 +263,7 @@ func runC12(c *eng.Ctx) {
 			return true
 		})
 		if name == "prepareBindingContextJsonFile" {
-			prm := f.Obj.Type().(*types.Signature).Params().At(0)
+			prm := paramLike(f.Obj.Type().(*types.Signature), 0, typeNamed("binding_context", "BindingContextList"))
 			contentOK := false
 			if len(call.Args) >= 2 {
 				if v, isV := eng.SelObj(info, call.Args[1]).(*types.Var); isV {
